@@ -19,7 +19,11 @@ def step : List String → String
   | "vgrant" :: _ => "skip"
   | "vtime" :: _ => "skip"
   | "vclaw" :: _ => "skip"
-  | "vunconv" :: _ => "skip"
+  | ["vunconv", pre, now] =>
+    match parseWAcct pre, now.toInt? with
+    | some (.vest a), some now => if unconvertGuard wireM a now then "ok" else "reject"
+    | some _, some _ => "reject"                                                      -- not a vesting account
+    | _, _ => "bad-op"
   | "vmon" :: _ => "skip"
   | _ => "bad-op"
 
